@@ -13,12 +13,14 @@
 package c15
 
 import (
+	"fmt"
 	"math"
 	"math/rand"
 	"strconv"
 	"strings"
 
 	"github.com/trajectoryjp/spatial_id_go/v4/common/enum"
+	sperrors "github.com/trajectoryjp/spatial_id_go/v4/common/errors"
 	"github.com/trajectoryjp/spatial_id_go/v4/common/object"
 	"github.com/trajectoryjp/spatial_id_go/v4/detector"
 	"github.com/trajectoryjp/spatial_id_go/v4/integrate"
@@ -39,7 +41,20 @@ const (
 
 var skipped = w.S("skipped-too-large")
 
-func lenErr(n int, err error) w.Val { return w.WithErr(w.I(int64(n)), err) }
+func lenErr(n int, err error) w.Val { return withErr(w.I(int64(n)), err) }
+
+// withErr reports a non-nil error together with its kind: Err{(payload, kind)}. The kind of a spatialIdError is its code (the part of
+// Error() before the first comma, common/errors/errors.go); any other error value (fmt.Errorf, also one that wraps a spatialIdError) is "plain".
+func withErr(v w.Val, err error) w.Val {
+	if err == nil {
+		return v
+	}
+	kind := "plain"
+	if strings.HasSuffix(fmt.Sprintf("%T", err), "spatialIdError") {
+		kind = strings.SplitN(err.Error(), ",", 2)[0]
+	}
+	return w.Err{V: w.L(v, w.S(kind))}
+}
 
 // ---------------------------------------------------------------------------------------------------------------- parsing / costs
 
@@ -318,7 +333,7 @@ func tileVal(t *object.TileXYZ) w.Val {
 	}
 	return w.L(w.I(t.HZoom()), w.I(t.X()), w.I(t.Y()), w.I(t.VZoom()), w.I(t.Z()))
 }
-func pairErr(a, b int64, err error) w.Val { return w.WithErr(w.L(w.I(a), w.I(b)), err) }
+func pairErr(a, b int64, err error) w.Val { return withErr(w.L(w.I(a), w.I(b)), err) }
 
 // ---------------------------------------------------------------------------------------------------------------- invokers
 
@@ -326,24 +341,24 @@ var calls = map[string]func(a []w.Val) w.Val{
 	// common/object
 	"NewPoint": func(a []w.Val) w.Val {
 		p, err := object.NewPoint(w.AsFlt(a[0]), w.AsFlt(a[1]), w.AsFlt(a[2]))
-		return w.WithErr(PointVal(p), err)
+		return withErr(PointVal(p), err)
 	},
 	"Point.SetLon": func(a []w.Val) w.Val {
 		p := ptFromVal(a[0])
 		err := p.SetLon(w.AsFlt(a[1]))
-		return w.WithErr(PointVal(p), err)
+		return withErr(PointVal(p), err)
 	},
 	"Point.SetLat": func(a []w.Val) w.Val {
 		p := ptFromVal(a[0])
 		err := p.SetLat(w.AsFlt(a[1]))
-		return w.WithErr(PointVal(p), err)
+		return withErr(PointVal(p), err)
 	},
 	"NewExtendedSpatialID": func(a []w.Val) w.Val {
 		o, err := object.NewExtendedSpatialID(w.AsStr(a[0]))
 		if o == nil {
-			return w.WithErr(w.Nil{}, err)
+			return withErr(w.Nil{}, err)
 		}
-		return w.WithErr(w.Ints(o.FieldParams()), err)
+		return withErr(w.Ints(o.FieldParams()), err)
 	},
 	"ExtendedSpatialID.ResetExtendedSpatialID": func(a []w.Val) w.Val {
 		o, err := object.NewExtendedSpatialID(w.AsStr(a[0]))
@@ -351,21 +366,21 @@ var calls = map[string]func(a []w.Val) w.Val{
 			panic("harness: the initial ID of a reset case must be valid")
 		}
 		err = o.ResetExtendedSpatialID(w.AsStr(a[1]))
-		return w.WithErr(w.Ints(o.FieldParams()), err)
+		return withErr(w.Ints(o.FieldParams()), err)
 	},
 	"NewTileXYZ": func(a []w.Val) w.Val {
 		t, err := object.NewTileXYZ(w.AsInt(a[0]), w.AsInt(a[1]), w.AsInt(a[2]), w.AsInt(a[3]), w.AsInt(a[4]))
-		return w.WithErr(tileVal(t), err)
+		return withErr(tileVal(t), err)
 	},
 	"TileXYZ.SetHZoom": func(a []w.Val) w.Val {
 		ts, _ := tilesFromVal(w.L(a[0]))
 		err := ts[0].SetHZoom(w.AsInt(a[1]))
-		return w.WithErr(tileVal(ts[0]), err)
+		return withErr(tileVal(ts[0]), err)
 	},
 	"TileXYZ.SetVZoom": func(a []w.Val) w.Val {
 		ts, _ := tilesFromVal(w.L(a[0]))
 		err := ts[0].SetVZoom(w.AsInt(a[1]))
-		return w.WithErr(tileVal(ts[0]), err)
+		return withErr(tileVal(ts[0]), err)
 	},
 	// shape
 	"GetExtendedSpatialIdsOnPoints": func(a []w.Val) w.Val {
@@ -485,14 +500,14 @@ var calls = map[string]func(a []w.Val) w.Val{
 			return skipped
 		}
 		b, err := detector.CheckExtendedSpatialIdsOverlap(w.AsStr(a[0]), w.AsStr(a[1]))
-		return w.WithErr(w.B(b), err)
+		return withErr(w.B(b), err)
 	},
 	"CheckSpatialIdsOverlap": func(a []w.Val) w.Val {
 		if _, bad := members([]string{w.AsStr(a[0]), w.AsStr(a[1])}, 4); bad {
 			return skipped
 		}
 		b, err := detector.CheckSpatialIdsOverlap(w.AsStr(a[0]), w.AsStr(a[1]))
-		return w.WithErr(w.B(b), err)
+		return withErr(w.B(b), err)
 	},
 	"CheckExtendedSpatialIdsArrayOverlap": func(a []w.Val) w.Val {
 		l1, l2 := w.AsStrs(a[0]), w.AsStrs(a[1])
@@ -500,7 +515,7 @@ var calls = map[string]func(a []w.Val) w.Val{
 			return skipped
 		}
 		b, err := detector.CheckExtendedSpatialIdsArrayOverlap(l1, l2)
-		return w.WithErr(w.B(b), err)
+		return withErr(w.B(b), err)
 	},
 	"CheckSpatialIdsArrayOverlap": func(a []w.Val) w.Val {
 		l1, l2 := w.AsStrs(a[0]), w.AsStrs(a[1])
@@ -508,7 +523,7 @@ var calls = map[string]func(a []w.Val) w.Val{
 			return skipped
 		}
 		b, err := detector.CheckSpatialIdsArrayOverlap(l1, l2)
-		return w.WithErr(w.B(b), err)
+		return withErr(w.B(b), err)
 	},
 	// transform
 	"ConvertExtendedSpatialIDsToQuadkeysAndVerticalIDs": func(a []w.Val) w.Val {
@@ -590,6 +605,28 @@ var calls = map[string]func(a []w.Val) w.Val{
 		ids, err := transform.GetExtendedSpatialIdsWithinRadiusOfLine(s, e, r, h, v, w.AsBool(a[5]))
 		return lenErr(len(ids), err)
 	},
+	// errors.NewSpatialIdError(code, detail).Error(); the code type is unexported, so only the exported constants and literals
+	"NewSpatialIdError": func(a []w.Val) w.Val {
+		d := w.AsStr(a[1])
+		var e error
+		switch w.AsStr(a[0]) {
+		case "InputValueError":
+			e = sperrors.NewSpatialIdError(sperrors.InputValueErrorCode, d)
+		case "OptionFailedError":
+			e = sperrors.NewSpatialIdError(sperrors.OptionFailedErrorCode, d)
+		case "ValueConvertError":
+			e = sperrors.NewSpatialIdError(sperrors.ValueConvertErrorCode, d)
+		case "OtherError":
+			e = sperrors.NewSpatialIdError(sperrors.OtherErrorCode, d)
+		case "Foo":
+			e = sperrors.NewSpatialIdError("Foo", d)
+		case "":
+			e = sperrors.NewSpatialIdError("", d)
+		default:
+			return skipped
+		}
+		return w.S(e.Error())
+	},
 	"GetVoxelIDfromSpatialID": func(a []w.Val) w.Val { return w.Ints(transform.GetVoxelIDfromSpatialID(w.AsStr(a[0]))) },
 }
 
@@ -625,7 +662,7 @@ var shapes = map[string]string{
 	"ConvertExtendedSpatialIDsToQuadkeysAndAltitudekeys": "Siiii", "ConvertQuadkeysAndVerticalIDsToExtendedSpatialIDs": "Qii",
 	"ConvertQuadkeysAndVerticalIDsToSpatialIDs": "Qi", "ConvertTileXYZsToExtendedSpatialIDs": "Uiii", "ConvertTileXYZsToSpatialIDs": "Uiii",
 	"ConvertZToMinMaxAltitudekey": "iiiii", "ConvertAltitudekeyToMinMaxZ": "iiiii", "FitClearanceAroundExtendedSpatialID": "sf",
-	"GetExtendedSpatialIdsWithinRadiusOfLine": "ppfiib", "GetVoxelIDfromSpatialID": "s",
+	"GetExtendedSpatialIdsWithinRadiusOfLine": "ppfiib", "GetVoxelIDfromSpatialID": "s", "NewSpatialIdError": "ss",
 }
 
 func isInt64(v w.Val) bool { i, ok := v.(w.Int); return ok && i.V.IsInt64() }
@@ -1968,6 +2005,11 @@ func fixedCases(r *run.Runner) {
 	one("ConvertExtendedSpatialIDsToQuadkeysAndVerticalIDs", "malformed", w.Strs([]string{"1/0/0/1/0/0"}), w.I(2), w.I(2), w.F(0), w.F(0))
 	one("NewPoint", "bad-lat", w.F(0), w.F(85.0511287799), w.F(0))
 	one("NewPoint", "valid", w.F(0), w.F(12.9086804579), w.F(0))
+	for _, c := range []string{"InputValueError", "OptionFailedError", "ValueConvertError", "OtherError", "Foo", ""} {
+		for _, d := range []string{"", "spatialId: x", "a,b", "入力", "hZoom must be in 0-35, but got 36"} {
+			one("NewSpatialIdError", "error-text", w.S(c), w.S(d))
+		}
+	}
 }
 
 func init() {
